@@ -248,6 +248,15 @@ def compareAndUpdate (ds : DState) (st : DState) : DState :=
 def trimSlash (s : String) : String :=
   if s.toList.getLast? == some '/' then String.ofList s.toList.dropLast else s
 
+/-- the URL string with the trailing slash of its *path* removed: the path ends at the first `?`
+or `#` (the document URL is in `url.String()` form, where neither occurs unescaped in the path) -/
+def trimPathSlash (s : String) : String :=
+  let cs := s.toList
+  let head := cs.takeWhile (fun c => c != '?' && c != '#')
+  let tail := cs.dropWhile (fun c => c != '?' && c != '#')
+  let head' := if head.getLast? == some '/' then head.dropLast else head
+  String.ofList (head' ++ tail)
+
 def urlAtoms (A : Atoms) (u : String) : Option UrlAtoms := A.urls.find? (fun x => x.url == u)
 
 /-- insertion-ordered association list: pattern key → links -/
@@ -297,7 +306,7 @@ def newDetectionState (A : Atoms) (nums : List PInfo) (descending : Bool) (accep
                              else ua.path.foldl (fun cs p => addCandidate cs p { pageNum := page.num, value := p.value, pos := i }) cs
                 | none => cs) []
           else cands0
-        let docTrim := trimSlash A.docURL
+        let docTrim := trimPathSlash A.docURL
         let res := cands.foldl (fun (acc : DState × List PInfo) c =>
           let (st, asc) := acc
           let (p, links) := c
